@@ -28,6 +28,7 @@ def main():
     tier = "quick"
     extra = []
     confirm = True
+    detect = True
     i = 0
     while i < len(args):
         if args[i] == "--checks":
@@ -36,6 +37,8 @@ def main():
             tier = args[i + 1]; i += 2
         elif args[i] == "--no-confirm":
             confirm = False; i += 1
+        elif args[i] == "--no-detect":
+            detect = False; i += 1
         else:
             i += 1
     src = os.path.join(wt, "seed_out", var)
@@ -81,7 +84,7 @@ def main():
             c["demo_fails_on_mutated"] = rc != 0
             c["demo_mutated_tail"] = out[-1500:]
             os.remove(demo_dst)
-            rc, out = sh("bash /verif/tools/baseline.sh " + wt, cwd=wt)
+            rc, out = sh("unshare -n bash -c 'ip link set lo up; bash /verif/tools/baseline.sh %s'" % wt, cwd=wt)
             c["suite_passes"] = rc == 0
             c["suite_tail"] = out[-400:]
         finally:
@@ -96,6 +99,8 @@ def main():
         if not c["confirmed"]:
             print(c.get("demo_clean_tail", "")[-300:]); print(c.get("demo_mutated_tail", "")[-300:]); print(c.get("suite_tail", ""))
 
+    if not detect:
+        return
     # detection on /repo
     rc, out = sh("git -C /repo status --porcelain")
     if out.strip():
